@@ -249,3 +249,8 @@ def run(ctx):
     rule_validate_before_acting(ctx, r3)
     r4 = ctx.rule("R4", "no recursion whose depth is the dependency depth (graph building and commands terminate for any size)", min_instances=2)
     rule_depth(ctx, r4)
+    r5 = ctx.rule("R5", "every build checks the inputs against the disk as it is now: the stat snapshot is per instance and made afresh by each command", min_instances=4)
+    from .shared import rule_per_instance_state, rule_fresh_per_call
+    why = "a second graph build in the same process answers exists() from the first build's snapshot, so a vanished source file is accepted (or a new one still rejected)"
+    rule_per_instance_state(ctx, r5, ["gwf.core:CachedFilesystem", "gwf.core:Graph"], why)
+    rule_fresh_per_call(ctx, r5, "gwf.core:CachedFilesystem", why)
